@@ -237,6 +237,7 @@ class Runner:
         proto._c19_cl = cl
         proto._c19_side = side
         proto._c19_term = False
+        proto._c19_hs = False
         self.rec.emit(op="proto", p=proto._c19_p, side=side, cl=cl)
         return proto._c19_p
 
@@ -306,6 +307,7 @@ class Runner:
                     r.emit(op="term", p=p, code=int(event.error_code) % 100000)
                     runner.dirty = True
                 elif isinstance(event, ev.HandshakeCompleted):
+                    self._c19_hs = True
                     r.emit(op="hsdone", p=p)
                 super().quic_event_received(event)
 
@@ -365,6 +367,8 @@ class Runner:
             k = op[0]
             if k == "stream":
                 _, n, chunk, inline = op
+                if proto._c19_side == "s" and not proto._c19_hs:
+                    continue      # a server connection opens streams only towards a peer that completed the handshake with it
                 t = self.stream_roundtrip(proto, cl, n, chunk, srnd)
                 if inline:
                     await t
